@@ -529,6 +529,9 @@ func (s *IndexedState) deleteDependencies(ctx *Context, id string) error {
 	Log(DEBUG, ctx, "IndexedState.deleteDependencies", "location", s.Name, "id", id, "found", len(srs.Found))
 
 	for _, sr := range srs.Found {
+		if !dependsOn(s.IdToFact[sr.Id], id) {
+			continue
+		}
 		Log(DEBUG, ctx, "IndexedState.deleteDependencies",
 			"location", s.Name, "id", id, "target", sr.Id)
 		if _, err := s.rem(ctx, sr.Id); nil != err {
